@@ -31,10 +31,17 @@ def run(tier):
         vd.observe("model:shadow:" + rw.violated, {"tlc_invariant": rw.violated, "output": rw.out[-6000:]})
     vecs4, st4 = engine.generate("shadow", 4 if tier == "quick" else 5, 16, wd)
     engine.replay(vd, vecs4, bdir, wd, PID, check_illformed=False)
+    # blocks with parameters nested in blocks: the captured names of a nested block come from its enclosing
+    # block's own scopes (X, Y) and through that block's environment (A), used in every order
+    ru = engine.model_check(vd, "upvals", 4)
+    if ru.violated:
+        vd.observe("model:upvals:" + ru.violated, {"tlc_invariant": ru.violated, "output": ru.out[-6000:]})
+    vecs5, st5 = engine.generate("upvals", 5, 16, wd)
+    engine.replay(vd, vecs5, bdir, wd, PID, check_illformed=True)
     return vd.finish(rule="programs of family 'names' (let with 1-2 ids, (|A|..), [|A|..], ?(|A|..), blocks "
                      "bound to names and applied, closures, ALT/OR) up to weight 3; well-formed ones compared "
                      "with Zw!Den (environments), ill-formed ones (unbound / rebound names) must be rejected "
-                     "at compile time with the corresponding message; family 'shadow': binders named like the builtin word `length' (let, scope), read directly and through one or two levels of blocks (weight 4); family 'scopes': infix operators, ALT, OR, sub-expressions and captures whose operands bind and read the names A and B (weight 3; 4 in the thorough tier); family 'blocks': nested blocks up to weight 5 capturing the up-values A (the input) and B at several depths, applied directly or through a name; tla/Engine.tla (op_lex_closure, op_apply with its private state buffer and rendezvous, op_upread transcribed in tla/EngineOps.tla) model-checked against Zw!Den on both families for every pull count and abandonment point, and the exact pull sequence of every legal program compared with the implementation", exhaustive=True, extra={"family": st, "blocks": st2, "scopes": st3, "shadow": st4})
+                     "at compile time with the corresponding message; family 'shadow': binders named like the builtin word `length' (let, scope), read directly and through one or two levels of blocks (weight 4); family 'scopes': infix operators, ALT, OR, sub-expressions and captures whose operands bind and read the names A and B (weight 3; 4 in the thorough tier); family 'upvals': blocks with parameters ({|X| ..} apply) nested in blocks, the nested block capturing names bound by its enclosing block next to names that reach it through the enclosing block's environment, in every order of first use (weight 5); family 'blocks': nested blocks up to weight 5 capturing the up-values A (the input) and B at several depths, applied directly or through a name; tla/Engine.tla (op_lex_closure, op_apply with its private state buffer and rendezvous, op_upread transcribed in tla/EngineOps.tla) model-checked against Zw!Den on both families for every pull count and abandonment point, and the exact pull sequence of every legal program compared with the implementation", exhaustive=True, extra={"family": st, "blocks": st2, "scopes": st3, "shadow": st4, "upvals": st5})
 
 def replay(path):
     import c01
